@@ -36,8 +36,12 @@ class StrTab:
         self.rev = {}
 
     def id(self, s):
+        "deterministic id of a literal (independent of the order in which literals are met)"
         if s not in self.ids:
-            n = 1000 + len(self.ids)
+            import hashlib
+            n = 1000 + int.from_bytes(hashlib.sha1(s.encode('utf-8', 'surrogatepass')).digest()[:5], 'big')
+            while n in self.rev and self.rev[n] != s:
+                n += 1
             self.ids[s] = n
             self.rev[n] = s
         return self.ids[s]
@@ -95,6 +99,19 @@ class SStr(SV):
 
     def __repr__(self):
         return 'SStr(%r)' % (self.lit if self.lit is not None else (self.struct or self.t),)
+
+
+class SFloat(SV):
+    """result of int / int (a Python float): known only as the quotient num/den rounded to binary64.
+    A-float: for |num|, |den| <= 2**53 the float is within one unit of the exact quotient's integer part;
+    beyond that nothing is assumed about it."""
+    kind = 'float'
+
+    def __init__(self, num, den):
+        self.num, self.den = num, den
+
+    def __repr__(self):
+        return 'SFloat(%s/%s)' % (self.num, self.den)
 
 
 class SVal(SV):
